@@ -112,6 +112,26 @@ CHECKS.update({
         "note": M1NOTE + " The state is observed through a sensing action observing every ground fluent.",
         "technique": "trace validation of recorded environment runs against the TLA+ sequential semantics (UPSeqSem) by TLC",
     },
+    "C06": {
+        "text": "Product exploration: for every recorded compilation P -> Q by a real compiler (grounder; conditional-effects, disjunctive-conditions, negative-conditions, quantifiers, usertype-fluents, bounded-types, state-invariants, trajectory-constraints, undefined-initial-numeric removers) with the map-back table obtained by calling the real map_back_action_instance on every ground action of Q, TLC explores every Q-behaviour (UPSeqSem!Step on Q) to a depth bound together with the P-behaviour it maps back to and checks: Q reached a goal state => the mapped-back plan was executable in P, reached a P goal state and satisfies P's trajectory constraints (PDDL3 monitors in TLA+).",
+        "note": M1NOTE + " Counterexamples longer than the depth bound are missed; compilations that raise are C08's subject.",
+        "technique": "TLC product exploration of compiled and original transition systems (ProductSound) over artefacts recorded from the real compilers",
+    },
+    "C07": {
+        "text": "Same artefacts as C06; ProductComplete: TLC explores every P-behaviour to the depth bound while maintaining by subset construction the set of Q-states reachable by Q-sequences mapping back to the P-sequence so far (closed under <= 2 steps that map back to nothing); P reached a goal state => some Q-state of the closure is a Q goal state. No-op steps may be absent from the compiled counterpart.",
+        "note": M1NOTE + " Depth-bounded; problems with trajectory constraints are judged for soundness only.",
+        "technique": "TLC subset-construction exploration (ProductComplete) over artefacts recorded from the real compilers",
+    },
+    "C08": {
+        "text": "Generated problems with adversarial identifiers inside each compiler's supports(kind) are compiled by the real compilers; CompilerJudge.tla (MODE=C08): the compiler must not raise (documented rejections excepted) and the projected compiled problem must be WellFormed: names unique per namespace, every referenced fluent/object/type declared, parameters bound, no free variable, and a plan back-conversion available.",
+        "note": M1NOTE + " Every exception inside supports(kind) is reported with its raising site as signature; only the trajectory-constraints remover's 'PROBLEM NOT SOLVABLE' is treated as documented rejection.",
+        "technique": "recorded compilation results judged by a TLA+ well-formedness definition (TLC)",
+    },
+    "C09": {
+        "text": "For every recorded compilation TLC compares feature by feature the kind of the compiled problem with compiler.resulting_problem_kind(input kind) (which must not raise); factory-selected pipelines over ordered subsets of the compilation kinds must accept every intermediate problem they produce.",
+        "note": M1NOTE + " The kind of the compiled problem is the implementation's own Problem.kind (C10 checks that kind against an independent extractor). The many (compiler, feature) pairs found on the pinned tree are listed one by one as known findings.",
+        "technique": "recorded declared/actual kinds and pipeline runs judged by TLC (CompilerJudge)",
+    },
     "C10": {
         "text": "UPKinds!FeaturesOf is an independent syntactic feature extractor over the abstract model, transcribed clause by clause from the documented meaning of each feature (docs/problem_representation.rst), not from _KindFactory. TLC enumerates 778 (problem class, feature, syntactic position, variant) cases; each becomes a minimal problem built through the public API; plus random classical/numeric/temporal problems and the bundled example problems. TLC judges that the recorded Problem.kind contains every feature FeaturesOf demands.",
         "note": TRUST + " One-directional (the computed kind must contain every used feature). Covers classical, numeric, temporal, HTN, multi-agent, scheduling and contingent per-position cases; TAMP/SAMP and up_test_cases are not covered.",
